@@ -155,8 +155,10 @@ def check_seed_changes():
     r = U.split_data([data[0].copy()], [0.5, 0.5])
     if np.vstack([r[0][0], r[1][0]]).tolist() != outs[42]:
         pass          # the default seed is not part of the property
-    if outs[0] == outs[1] or outs[0] == outs[12345] or outs[1] == outs[12345]:
-        fails.append(("seed-ignored", "split_data of 12 rows gives the same assignment for different random_state values"))
+    seeds = sorted(outs)
+    same = [(a, b) for i, a in enumerate(seeds) for b in seeds[i + 1:] if outs[a] == outs[b]]
+    if same:
+        fails.append(("seed-ignored", "split_data of 12 rows gives the same assignment for the different random_state values %s" % (same,)))
     if all(outs[s] == data[0].tolist() for s in outs):
         fails.append(("no-shuffle", "split_data does not shuffle: folds are the input order for every seed"))
     return fails
